@@ -170,7 +170,13 @@ pub fn run(r: &mut Runner) {
     });
     r.add_sample(json!({"constant": "PI", "words": show_dd([twofloat::consts::PI.hi(), twofloat::consts::PI.lo()]), "reference": "Machin series enclosure at 640 bits, both ends round to the same double-double"}));
     let exps: Vec<i32> = if quick { vec![-450, -449, -100, -8, -7, -1, 0, 1, 5, 6, 7, 8, 100, 448, 449] } else { (-450..=449).collect() };
-    let xs = grid(&exps, quick, 41);
+    let mut xs = grid(&exps, quick, 41);
+    if quick {
+        // every exponent of the stated range with a thin set of fractions and low words (a rescaling step may treat one
+        // binade differently); the thorough tier has the full grid on every exponent
+        let all: Vec<i32> = (-450..=449).collect();
+        xs.extend(crate::fx::grid_thin(&all, 2, 43));
+    }
     let nx = xs.len();
     r.notes.push(format!("angle conversions: {} valid operands over exponents {:?}..", nx, &exps[..exps.len().min(6)]));
     r.add_sample(json!({"call": "to_degrees", "x": show_dd(xs[nx / 2])}));
